@@ -707,9 +707,11 @@ class ValueSets:
     """
 
     def __init__(self, prog, func, names=None, summaries=None, on_el=None, on_edge=None, init_extra=None, cap=512,
-                 extra_domains=None, call_assign=None):
+                 extra_domains=None, call_assign=None, call_value=None):
         self.prog, self.f = prog, func
         self.call_assign = call_assign
+        self.call_value = call_value
+        self._cur_extra = None
         self.summ = summaries
         self.on_el, self.on_edge = on_el, on_edge
         dom = {}
@@ -748,6 +750,10 @@ class ValueSets:
         if k == "cond":
             a, b = self.eval(e["t"], vals), self.eval(e["f"], vals)
             return None if a is None or b is None else a | b
+        if k == "call" and self.call_value is not None:
+            v = self.call_value(self._cur_extra, e)
+            if v is not None:
+                return v
         if k == "call" and self.summ is not None:
             return self.summ.call_return_set(self.f, e)
         if k == "asg" and e["op"] == "=":
@@ -767,6 +773,7 @@ class ValueSets:
 
     def _transfer(self, st, blk, i, el):
         vals, extra = st
+        self._cur_extra = extra
         k = el["k"]
         outs_vals = [vals]
         if k == "decl":
@@ -799,7 +806,13 @@ class ValueSets:
             if self.on_el:
                 get = lambda n, vv=v2: vv[self.idx[n]] if n in self.idx else None
                 for ex in self.on_el(extra, blk, i, el, get):
-                    res.append((v2, ex))
+                    if isinstance(ex, tuple) and len(ex) == 3 and ex[0] == "upd":
+                        v3 = v2
+                        for nm, sset in ex[2].items():
+                            v3 = self._set(v3, nm, sset)
+                        res.append((v3, ex[1]))
+                    else:
+                        res.append((v2, ex))
             else:
                 res.append((v2, extra))
         return res
@@ -812,6 +825,26 @@ class ValueSets:
             ls = strip(l)
             if ls is not None and ls.get("k") == "asg" and ls["op"] == "=":
                 n = path(ls["l"])
+            if ls is not None and ls.get("k") == "call" and n is None:
+                cv = self.eval(ls, vals)
+                if cv is not None and len(cv) == 1:
+                    name = next(iter(cv))
+                    num = self.prog.enumconst.get(name, (None, None))[1]
+                    if op == "truth" and num == 0:
+                        return None
+                    if op == "false" and num is not None and num != 0:
+                        return None
+                    if op in ("==", "!="):
+                        rs = self.eval(r, vals)
+                        if rs is not None and len(rs) == 1:
+                            same = (next(iter(rs)) == name)
+                            if (op == "==") != same:
+                                return None
+                        elif r is not None and const_val(r) is not None and num is not None:
+                            same = (const_val(r) == num)
+                            if (op == "==") != same:
+                                return None
+                continue
             if n in self.idx:
                 cur = vals[self.idx[n]]
                 if op in ("==", "!="):
@@ -848,6 +881,7 @@ class ValueSets:
 
     def _refine(self, st, cond, pol, blk):
         vals, extra = st
+        self._cur_extra = extra
         vals = self._refine_vals(vals, cond, pol)
         if vals is None:
             return None
